@@ -235,6 +235,69 @@ Definition write_ok (w : str * str * write_kind) : bool :=
   | (_, _, WOther) => false
   end.
 
+
+(* ------------------------------------------------------------------------- *)
+(* ctx forwarding: calls of helpers whose `ctx` parameter has a default value  *)
+(* ------------------------------------------------------------------------- *)
+
+(* one call (or bare reference) of such a helper: where, the callee, whether ctx is passed
+   explicitly (positionally, by keyword, or the helper is handed on to a call that gets
+   ctx=...), whether the caller has a ctx in scope, whether the callee can reach a mode
+   decision (calls a user function, reads .online, contains a sink -- over-approximating
+   name-based call graph), whether the default is None *)
+Record ctxcall := {
+  c_file : str; c_fn : str; c_callee : str; c_line : N;
+  c_passes : bool; c_has_ctx : bool; c_risky : bool; c_default_none : bool }.
+
+Record ctx_exclusion := { cx_file : str; cx_fn : str; cx_callee : str; cx_max : nat }.
+
+(* calls that leave the default in place and are harmless, one by one *)
+Definition ctx_exclusions : list ctx_exclusion := [
+  (* template B: vy_int(lhs, 2): only multiply/add of digits run under the default context; judged dynamically (function / tainted-string digits): no print, eval or call of a user function *)
+  {| cx_file := elements_py; cx_fn := [116;112;108;32;66]; cx_callee := [118;121;95;105;110;116]; cx_max := 1 |};
+  (* vy_int's own fallback vy_int(iterable(item, ctx=ctx), base): same arithmetic *)
+  {| cx_file := elements_py; cx_fn := [118;121;95;105;110;116]; cx_callee := [118;121;95;105;110;116]; cx_max := 1 |};
+  (* wrapify(rhs) without a count never pops (the context is only used by pop) *)
+  {| cx_file := elements_py; cx_fn := [97;112;112;108;121;95;97;116]; cx_callee := [119;114;97;112;105;102;121]; cx_max := 1 |};
+  (* wrapify(result) without a count never pops *)
+  {| cx_file := elements_py; cx_fn := [102;117;110;99;116;105;111;110;95;99;97;108;108]; cx_callee := [119;114;97;112;105;102;121]; cx_max := 1 |};
+  (* wrapify(solutions) without a count never pops *)
+  {| cx_file := elements_py; cx_fn := [110;97;116;117;114;97;108;95;108;111;103;46;60;108;97;109;98;100;97;62]; cx_callee := [119;114;97;112;105;102;121]; cx_max := 1 |};
+  (* default None: the mapped function only builds a string; a mode decision on None raises AttributeError (recorded), it cannot silently take the offline branch *)
+  {| cx_file := elements_py; cx_fn := [97;110;103;108;101;95;98;114;97;99;107;101;116;105;102;121]; cx_callee := [118;101;99;116;111;114;105;115;101]; cx_max := 1 |};
+  (* as angle_bracketify *)
+  {| cx_file := elements_py; cx_fn := [98;114;97;99;107;101;116;105;102;121]; cx_callee := [118;101;99;116;111;114;105;115;101]; cx_max := 1 |};
+  (* as angle_bracketify *)
+  {| cx_file := elements_py; cx_fn := [99;117;114;108;121;95;98;114;97;99;107;101;116;105;102;121]; cx_callee := [118;101;99;116;111;114;105;115;101]; cx_max := 1 |};
+  (* as angle_bracketify *)
+  {| cx_file := elements_py; cx_fn := [112;97;114;101;110;116;104;101;115;105;115;101]; cx_callee := [118;101;99;116;111;114;105;115;101]; cx_max := 1 |};
+  (* default None: str.ljust of the items *)
+  {| cx_file := elements_py; cx_fn := [99;117;115;116;111;109;95;112;97;100;95;108;101;102;116]; cx_callee := [118;101;99;116;111;114;105;115;101]; cx_max := 1 |};
+  (* default None: str.rjust of the items *)
+  {| cx_file := elements_py; cx_fn := [99;117;115;116;111;109;95;112;97;100;95;114;105;103;104;116]; cx_callee := [118;101;99;116;111;114;105;115;101]; cx_max := 1 |};
+  (* map(vy_sum, combinations of the CHARACTERS of a string): default None, additions of one-character strings only *)
+  {| cx_file := elements_py; cx_fn := [118;121;95;100;105;118;109;111;100;46;60;108;97;109;98;100;97;62]; cx_callee := [118;121;95;115;117;109]; cx_max := 2 |}
+].
+
+Definition cx_matches (x : ctx_exclusion) (c : ctxcall) : bool :=
+  str_eqb (cx_file x) (c_file c) && str_eqb (cx_fn x) (c_fn c) && str_eqb (cx_callee x) (c_callee c)
+  && negb (c_passes c).
+
+Definition ctx_listed (c : ctxcall) : bool := existsb (fun x => cx_matches x c) ctx_exclusions.
+
+(* the obligation: from a function that has a ctx, a helper that can reach a mode decision
+   is never left to its default context *)
+Definition ctx_ok (c : ctxcall) : bool :=
+  c_passes c || negb (c_has_ctx c) || negb (c_risky c) || ctx_listed c.
+
+Fixpoint cx_count (x : ctx_exclusion) (l : list ctxcall) : nat :=
+  match l with
+  | [] => O
+  | c :: r => ((if cx_matches x c then 1 else 0) + cx_count x r)%nat
+  end.
+Definition ctx_exclusions_tight (l : list ctxcall) : bool :=
+  forallb (fun x => Nat.leb (cx_count x l) (cx_max x)) ctx_exclusions.
+
 (* ------------------------------------------------------------------------- *)
 (* Part 2: effect traces                                                       *)
 (* ------------------------------------------------------------------------- *)
@@ -256,10 +319,13 @@ Record mode := { online : bool }.
 (* --- vy_eval(item, ctx) -------------------------------------------------- *)
 (* what the harness knows about the text independently of vy_eval *)
 Record text_facts := {
-  is_literal : bool;      (* ast.literal_eval succeeds on it *)
-  is_evaluable : bool     (* eval succeeds on it (literals are evaluable) *)
+  is_literal : bool;      (* ast.literal_eval succeeds on it AND the literal converts to a Vyxal
+                             value (None, Ellipsis, [1, None], an infinite float do not) *)
+  is_evaluable : bool     (* eval succeeds on it and the result converts *)
 }.
-Inductive eval_result := RValue | RUnchanged.
+(* the text comes back as a value, comes back unchanged (the same string), or the call
+   raises -- which the model never does: input parsing has no try around it *)
+Inductive eval_result := RValue | RUnchanged | RRaises.
 
 Definition vy_eval_trace (m : mode) (t : text_facts) : list effect :=
   if online m then [LiteralEval] else [PyEval].
